@@ -33,7 +33,7 @@ Emit == DoEmit => PrintT(ToJson([f |-> "vfk", m |-> m,
 Spec == GenSpec
 cScalars == {VS("x"), VS("y"), VB("true"), VF("0.1")}
 cScalarsSmall == {VS("x"), VB("true"), VF("0.1")}
-cScalarsNil == {VS("x"), VNil}        \* a member that is present with a null value is PRESENT (wildcard and negated conditions)
+cScalarsNil == {VS("x"), VS("X"), VNil}        \* a member that is present with a null value is PRESENT (wildcard and negated conditions)
 cConts == {EmptyMap, EmptyList}
 cScalars1 == {VS("x")}
 =============================================================================
